@@ -446,13 +446,35 @@ def shapes_dtypes(index: RepoIndex, rep, rule_shape: str, rule_dtype: str) -> No
                   f'the space\'s grid shape', f'{c.name}.space tiled (h, w, 1)')
         cv = c.methods['convert']
         p = cv.node.args.args[1].arg
-        w = view(index, cv)[1]
+        vnode = view(index, cv)[0]
+        # a dictionary that only memoises the per-object conversion within one call is read
+        # through -- provided its key determines the encoding (the three fields of C16.R1)
+        from ..normalise import eliminate_local_memo, normalise_function
+        em = eliminate_local_memo(vnode)
+        if em is not None:
+            w0 = walk_function(vnode)
+            for M_, K_, E_ in em[1]:
+                cell = src(E_.args[0]) if isinstance(E_, ast.Call) and len(E_.args) == 1 else None
+                kx = w0.expand(ast.parse(K_, mode='eval').body, stop=[cell] if cell else [])
+                parts = {src(x) for x in (kx.elts if isinstance(kx, ast.Tuple) else [kx])}
+                need = [{f'type({cell})'}, {f'{cell}.state_index', f'{cell}.state'},
+                        {f'{cell}.color', f'{cell}.color.value'}]
+                missing = [sorted(n_)[0] for n_ in need if not (n_ & parts)]
+                rep.check(cell is not None and not missing, rule_shape, rel, f'{c.name}.convert',
+                          cv.node.lineno, f'{M_}[{src(kx)}] = {src(E_)}',
+                          f'{c.name}.convert memoises encodings under a key that leaves out '
+                          f'{missing}: two cells that differ there share one encoding',
+                          f'{c.name}.convert memo key')
+            vnode = normalise_function(em[0])
+        w = walk_function(vnode)
         rets = [e for e in w.events if e.kind == 'return' and e.value is not None]
-        ok = False
+        ok = bool(rets)
         got = ''
-        if len(rets) == 1:
-            r = w.expand(rets[0].value)
+        recognised = bool(rets)
+        for ret_ in rets:
+            r = w.expand(ret_.value)
             got = src(r)
+            ok1 = False
             if isinstance(r, ast.Call) and src(r.func) == 'np.array' and r.args and \
                     isinstance(r.args[0], ast.ListComp) and \
                     isinstance(r.args[0].elt, ast.ListComp):
@@ -462,7 +484,7 @@ def shapes_dtypes(index: RepoIndex, rep, rule_shape: str, rule_dtype: str) -> No
                 G = f'{p}.grid'
                 cells = (f'{G}[{yv}, {xv}]', f'{G}[({yv}, {xv})]', f'{G}.objects[{yv}][{xv}]',
                          f'{G}[Position({yv}, {xv})]')
-                ok = len(outer.generators) == 1 and len(inner.generators) == 1 and \
+                ok1 = len(outer.generators) == 1 and len(inner.generators) == 1 and \
                     not outer.generators[0].ifs and not inner.generators[0].ifs and \
                     _rows_of2(outer.generators[0].iter) == G and \
                     _cols_of(inner.generators[0].iter) == G and \
@@ -473,10 +495,11 @@ def shapes_dtypes(index: RepoIndex, rep, rule_shape: str, rule_dtype: str) -> No
                 rep.check(dt == ['int'], rule_dtype, rel, f'{c.name}.convert', cv.node.lineno,
                           got[:120], f'{c.name}.convert builds dtype {dt}, not int',
                           f'{c.name}.convert int')
-        if not ok and not (len(rets) == 1 and isinstance(r, ast.Call) and r.args and
-                           isinstance(r.args[0], ast.ListComp)
-                           and isinstance(r.args[0].elt, ast.ListComp)):
-            # a vectorised / memoised conversion: a different algorithm, not a verdict
+            else:
+                recognised = False
+            ok = ok and ok1
+        if not ok and not recognised:
+            # a vectorised conversion: a different algorithm, not a verdict
             raise AnalysisError(f'{c.name}.convert is not a cell-by-cell nested comprehension '
                                 f'(outside the grammar of the positional rule)')
         rep.check(ok, rule_shape, rel, f'{c.name}.convert', cv.node.lineno, got[:200],
